@@ -1,4 +1,5 @@
 import XrsVerif.Model.Jenks
+import XrsVerif.Proofs.Bin
 import Mathlib.Tactic.Ring
 import Mathlib.Tactic.Linarith
 import Mathlib.Tactic.FieldSimp
@@ -350,4 +351,220 @@ theorem getD_sorted (xs : List Rat) (hs : xs.Pairwise (· ≤ ·)) (i j : Nat) (
   · exact (List.pairwise_iff_getElem.mp hs) _ _ _ _ h
   · subst h; exact le_refl _
 
+/-! ### every class is used when there are enough different values -/
+
+/-- the data are ascending (what `data.sort()` establishes) -/
+def Sorted (x : Nat → Rat) (n : Nat) : Prop := ∀ i j, i ≤ j → j < n → x i ≤ x j
+
+/-- number of strict ascents `x p < x (p + 1)` among the first `l` elements (`p + 1 < l`) -/
+def asc (x : Nat → Rat) : Nat → Nat
+  | 0 => 0
+  | l+1 => asc x l + (if 0 < l ∧ x (l - 1) < x l then 1 else 0)
+
+theorem S_le (x : Nat → Rat) (i : Nat) (M : Rat) : ∀ c, (∀ t, t < c → x (i + t) ≤ M) → S x i c ≤ (c : Rat) * M := by
+  intro c
+  induction c with
+  | zero => intro _; simp [S]
+  | succ c ih =>
+    intro h
+    have h1 := ih (fun t ht => h t (by omega))
+    have h2 := h c (by omega)
+    simp only [S]; push_cast; linarith
+
+theorem S_ge (x : Nat → Rat) (i : Nat) (m : Rat) : ∀ c, (∀ t, t < c → m ≤ x (i + t)) → (c : Rat) * m ≤ S x i c := by
+  intro c
+  induction c with
+  | zero => intro _; simp [S]
+  | succ c ih =>
+    intro h
+    have h1 := ih (fun t ht => h t (by omega))
+    have h2 := h c (by omega)
+    simp only [S]; push_cast; linarith
+
+/-- splitting a class between two different means strictly decreases the sum of squared deviations -/
+theorem ssd_split_strict (x : Nat → Rat) (i m l : Nat) (h1 : i < m) (h2 : m < l)
+    (hlt : S x i (m - i) * ((l - m : Nat) : Rat) < S x m (l - m) * ((m - i : Nat) : Rat)) :
+    ssd x i m + ssd x m l < ssd x i l := by
+  obtain ⟨a, rfl⟩ : ∃ a, m = i + a := ⟨m - i, by omega⟩
+  obtain ⟨b, rfl⟩ : ∃ b, l = i + a + b := ⟨l - (i + a), by omega⟩
+  have ha : 0 < a := by omega
+  have hb : 0 < b := by omega
+  unfold ssd
+  rw [show i + a - i = a by omega, show i + a + b - (i + a) = b by omega, show i + a + b - i = a + b by omega] at *
+  rw [S_add, Q_add]
+  generalize S x i a = sA at *
+  generalize S x (i + a) b = sB at *
+  generalize Q x i a = qA
+  generalize Q x (i + a) b = qB
+  have haq : (0 : Rat) < (a : Rat) := by exact_mod_cast ha
+  have hbq : (0 : Rat) < (b : Rat) := by exact_mod_cast hb
+  push_cast
+  have key : (sA + sB) * (sA + sB) / ((a : Rat) + b) < sA * sA / a + sB * sB / b := by
+    rw [div_add_div _ _ (ne_of_gt haq) (ne_of_gt hbq), div_lt_div_iff₀ (by positivity) (by positivity)]
+    have hd : 0 < sB * a - sA * b := sub_pos.mpr hlt
+    nlinarith [mul_pos hd hd]
+  linarith
+
+/-- ... in particular between two different consecutive values of ascending data -/
+theorem ssd_split_ascent (x : Nat → Rat) (n : Nat) (hs : Sorted x n) (i m l : Nat) (h1 : i < m) (h2 : m < l)
+    (hl : l ≤ n) (hasc : x (m - 1) < x m) : ssd x i m + ssd x m l < ssd x i l := by
+  apply ssd_split_strict x i m l h1 h2
+  have hA := S_le x i (x (m - 1)) (m - i) (fun t ht => hs _ _ (by omega) (by omega))
+  have hB := S_ge x m (x m) (l - m) (fun t ht => hs _ _ (by omega) (by omega))
+  have ha : (0 : Rat) < ((m - i : Nat) : Rat) := by exact_mod_cast (by omega : 0 < m - i)
+  have hb : (0 : Rat) < ((l - m : Nat) : Rat) := by exact_mod_cast (by omega : 0 < l - m)
+  calc S x i (m - i) * ((l - m : Nat) : Rat) ≤ ((m - i : Nat) : Rat) * x (m - 1) * ((l - m : Nat) : Rat) :=
+        mul_le_mul_of_nonneg_right hA hb.le
+    _ < ((m - i : Nat) : Rat) * x m * ((l - m : Nat) : Rat) := by
+        apply mul_lt_mul_of_pos_right _ hb
+        exact mul_lt_mul_of_pos_left hasc ha
+    _ = ((l - m : Nat) : Rat) * x m * ((m - i : Nat) : Rat) := by ring
+    _ ≤ S x m (l - m) * ((m - i : Nat) : Rat) := mul_le_mul_of_nonneg_right hB ha.le
+
+/-- without an ascent at or after position `m`, the first `m + d` elements have at most one ascent more than the
+    first `m` (the one across the boundary, which needs `m ≥ 1`) -/
+theorem asc_no_inner (x : Nat → Rat) (m : Nat) : ∀ d, (∀ p, m ≤ p → p + 1 < m + d → ¬ x p < x (p + 1)) →
+    asc x (m + d) ≤ asc x m + (if 0 < m then 1 else 0) := by
+  intro d
+  induction d with
+  | zero => intro _; simp
+  | succ d ih =>
+    intro h
+    have h1 := ih (fun p hp hp' => h p hp (by omega))
+    rw [show m + (d + 1) = (m + d) + 1 by omega]
+    simp only [asc]
+    by_cases hd : d = 0
+    · subst hd
+      simp only [Nat.add_zero] at *
+      split <;> split <;> simp_all
+    · have hno := h (m + d - 1) (by omega) (by omega)
+      rw [show m + d - 1 + 1 = m + d by omega] at hno
+      have : ¬ (0 < m + d ∧ x (m + d - 1) < x (m + d)) := fun hh => hno hh.2
+      rw [if_neg this]; omega
+
+/-- a partition of ascending data into fewer classes than there are ascents + 1 can be refined by one class
+    with a strictly smaller within-class sum of squared deviations -/
+theorem improve (x : Nat → Rat) (n : Nat) (hs : Sorted x n) :
+    ∀ sizes l, l ≤ n → IsPartition l sizes → 1 ≤ sizes.length → sizes.length ≤ asc x l →
+      ∃ sizes', IsPartition l sizes' ∧ sizes'.length = sizes.length + 1 ∧ cost x l sizes' < cost x l sizes := by
+  intro sizes
+  induction sizes with
+  | nil => intro l _ _ h; simp at h
+  | cons s rest ih =>
+    intro l hl hp hlen hasc
+    have hs1 : 1 ≤ s := hp.1 s (by simp)
+    have hsum : s + rest.sum = l := by simpa [IsPartition] using hp.2
+    by_cases hin : ∃ p, l - s ≤ p ∧ p + 1 < l ∧ x p < x (p + 1)
+    · obtain ⟨p, hp1, hp2, hp3⟩ := hin
+      refine ⟨(l - (p + 1)) :: (p + 1 - (l - s)) :: rest, ⟨?_, ?_⟩, by simp, ?_⟩
+      · intro t ht
+        simp only [List.mem_cons] at ht
+        rcases ht with rfl | rfl | ht
+        · omega
+        · omega
+        · exact hp.1 t (by simp [ht])
+      · simp; omega
+      · simp only [cost]
+        rw [show l - (l - (p + 1)) = p + 1 by omega, show p + 1 - (p + 1 - (l - s)) = l - s by omega]
+        have := ssd_split_ascent x n hs (l - s) (p + 1) l (by omega) (by omega) hl (by simpa using hp3)
+        linarith
+    · have hno : ∀ p, l - s ≤ p → p + 1 < l - s + s → ¬ x p < x (p + 1) := by
+        intro p h1 h2 h3; exact hin ⟨p, h1, by omega, h3⟩
+      have hb := asc_no_inner x (l - s) s hno
+      rw [show l - s + s = l by omega] at hb
+      cases rest with
+      | nil =>
+        have : l - s = 0 := by simp at hsum; omega
+        rw [this] at hb
+        simp [asc] at hb hasc
+        omega
+      | cons t rest' =>
+        have hpr : IsPartition (l - s) (t :: rest') :=
+          ⟨fun s' hs' => hp.1 s' (by simp [List.mem_cons] at hs' ⊢; tauto), by simp at hsum ⊢; omega⟩
+        have hlen' : (t :: rest').length ≤ asc x (l - s) := by
+          simp only [List.length_cons] at hasc ⊢
+          split at hb <;> omega
+        obtain ⟨r', hr1, hr2, hr3⟩ := ih (l - s) (by omega) hpr (by simp) hlen'
+        refine ⟨s :: r', ⟨?_, ?_⟩, by simp [hr2], ?_⟩
+        · intro u hu
+          rcases List.mem_cons.mp hu with rfl | hu
+          · exact hs1
+          · exact hr1.1 u hu
+        · simp [hr1.2]; omega
+        · simp only [cost] at hr3 ⊢; linarith
+
+/-- **all `k` classes are used** when the ascending data have at least `k - 1` strict ascents (= at least `k`
+    different values): the back-tracked optimal partition cannot have fewer classes, because it could then be
+    refined at an ascent inside a class, contradicting `lower` -/
+theorem back_full (x : Nat → Rat) (n k : Nat) (hs : Sorted x n) (hn : 1 ≤ n) (hk : 1 ≤ k) (ha : k ≤ asc x n + 1) :
+    (back x n (k - 1) n).length = k := by
+  obtain ⟨h1, h2, h3, h4⟩ := attained x n (k - 1) n hn (le_refl _)
+  by_contra hne
+  have hlt : (back x n (k - 1) n).length ≤ asc x n := by omega
+  obtain ⟨s', p1, p2, p3⟩ := improve x n hs _ n (le_refl _) h1 h2 hlt
+  have := lower x n (k - 1) n hn (le_refl _) s' p1 (by omega) (by omega)
+  rw [h4] at p3
+  linarith
+
+/-- the values of ascending data: at most one more than there are ascents -/
+theorem values_le_asc (x : Nat → Rat) (n : Nat) (hs : Sorted x n) :
+    ∀ l, l ≤ n → ∃ vals : List Rat, vals.length ≤ asc x l + 1 ∧ ∀ i, i < l → x i ∈ vals := by
+  intro l
+  induction l with
+  | zero => intro _; exact ⟨[], by simp, by intro i hi; omega⟩
+  | succ l ih =>
+    intro hl
+    obtain ⟨vals, hv1, hv2⟩ := ih (by omega)
+    by_cases h0 : l = 0
+    · subst h0
+      refine ⟨[x 0], by simp [asc], ?_⟩
+      intro i hi
+      have : i = 0 := by omega
+      subst this; simp
+    · by_cases hlt : x (l - 1) < x l
+      · refine ⟨x l :: vals, ?_, ?_⟩
+        · simp only [asc, List.length_cons]
+          rw [if_pos ⟨by omega, hlt⟩]; omega
+        · intro i hi
+          by_cases hil : i = l
+          · subst hil; simp
+          · exact List.mem_cons_of_mem _ (hv2 i (by omega))
+      · refine ⟨vals, by simp only [asc]; omega, ?_⟩
+        intro i hi
+        by_cases hil : i = l
+        · subst hil
+          have h1 : x (i - 1) ≤ x i := hs _ _ (by omega) (by omega)
+          have : x i = x (i - 1) := le_antisymm (not_lt.mp hlt) h1
+          rw [this]; exact hv2 (i - 1) (by omega)
+        · exact hv2 i (by omega)
+
+open XrsVerif.Bin in
+/-- at least `k` different sample values ⇒ the optimal partition of the sorted sample uses all `k` classes -/
+theorem sample_full (sample : List Rat) (k : Nat) (hk : 1 ≤ k) (hku : k ≤ (uniq sample).length) :
+    (back (fun i => (sortQ sample).getD i 0) (sortQ sample).length (k - 1) (sortQ sample).length).length = k := by
+  obtain ⟨hss, hsm⟩ := sortQ_sorted sample
+  generalize sortQ sample = xs at *
+  have hsorted : Sorted (fun i => xs.getD i 0) xs.length := fun i j hij hj => getD_sorted xs hss i j hij hj
+  obtain ⟨vals, hv1, hv2⟩ := values_le_asc _ _ hsorted xs.length (le_refl _)
+  have hsub : uniq sample ⊆ vals := by
+    intro a ha
+    have : a ∈ xs := (hsm a).mpr ((mem_uniq a sample).mp ha)
+    obtain ⟨i, hi, rfl⟩ := List.getElem_of_mem this
+    have := hv2 i hi
+    simpa [List.getD_eq_getElem?_getD, List.getElem?_eq_getElem hi] using this
+  have hnd : (uniq sample).Nodup := (uniq_sorted sample).imp ne_of_lt
+  have hlen := hnd.length_le_of_subset hsub
+  have hn : 1 ≤ xs.length := by
+    by_contra h
+    have : xs = [] := List.eq_nil_of_length_eq_zero (by omega)
+    subst this
+    have : uniq sample = [] := by
+      cases hu : uniq sample with
+      | nil => rfl
+      | cons a t =>
+        have : a ∈ uniq sample := by rw [hu]; simp
+        have := (hsm a).mpr ((mem_uniq a sample).mp this)
+        simp at this
+    rw [this] at hku; simp at hku; omega
+  exact back_full _ _ k hsorted hn hk (by omega)
 end XrsVerif.Jenks
